@@ -1,7 +1,7 @@
 (* Run.v — command dispatcher: one S-expression in, one S-expression out.
    This is what the OCaml driver calls; each command evaluates model functions on a case that the
    Python harness also runs on the rebuilt implementation. *)
-From OptreeModel Require Export Wire Flatten Unflatten Spec Ops Registry.
+From OptreeModel Require Export Wire Flatten Unflatten Spec Ops Registry Pickle.
 
 Definition bad : sexp := SL [SI 2].   (* undecodable input: a harness error, never a verdict *)
 
@@ -183,6 +183,27 @@ Definition cmd_mode (progs : list mprog) : sexp :=
     fold_left (fun '(st, acc) p => let '(st', o, _) := mrun st p in (st', acc ++ o)) progs ([], []) in
   SL [enc_mstate final; SL (map enc_mstate obs)].
 
+(* cmd 9: pickle under one registry, load under another *)
+Definition cmd_pickle (c : cfg) (o : obj) (regs2 : list reg) : sexp :=
+  match flatten c o with
+  | Err e => enc_err e
+  | Ok (ls, sp) =>
+    let r := from_pickle regs2 (to_pickle sp) in
+    SL [SI 0; enc_res enc_spec r;
+        match r with
+        | Ok sp2 =>
+          (* is the loaded treespec == the original; == a treespec flattened afresh under regs2 *)
+          SL [enc_bool (spec_eqb sp2 sp);
+              match flatten {| c_nil := c_nil c; c_ns := c_ns c; c_pred := c_pred c; c_reg := regs2;
+                               c_ins := c_ins c; c_limit := c_limit c |} o with
+              | Ok (_, sp3) => enc_bool (spec_eqb sp2 sp3)
+              | Err _ => SI 2
+              end;
+              enc_res enc_obj (unflatten sp2 ls)]
+        | Err _ => SL []
+        end]
+  end.
+
 Definition run (s : sexp) : sexp :=
   match s with
   | SL [SI 1; c; o] =>
@@ -224,6 +245,11 @@ Definition run (s : sexp) : sexp :=
     match omapM (dec_mprog 64) progs with
     | Some ps => cmd_mode ps
     | None => bad
+    end
+  | SL [SI 9; c; o; regs2] =>
+    match dec_cfg c, dec_obj o, dec_list dec_reg regs2 with
+    | Some c', Some o', Some r2 => cmd_pickle c' o' r2
+    | _, _, _ => bad
     end
   | _ => bad
   end.
